@@ -585,8 +585,15 @@ func (r *run) settled() func() bool {
 // the only way the handler offers: by enqueueing a blob it has not seen (the
 // loop otherwise sleeps for the 5 s queueSyncInterval after a round in which
 // every copy failed).  Returns false on watchdog expiry or when the incarnation froze.
+// expired counts bounded waits that ran out.  On a healthy tree none does; once many have (a broken tree),
+// the remaining runs use a shorter horizon so that the check still ends in reasonable time.
+var expired atomic.Int64
+
 func (r *run) await(cond func() bool, wd time.Duration, needWork func() bool) bool {
 	inc := r.cur
+	if expired.Load() > 24 {
+		wd = wd / 8
+	}
 	deadline := time.Now().Add(wd)
 	last := r.lg.Len()
 	lastT := time.Now()
@@ -600,6 +607,7 @@ func (r *run) await(cond func() bool, wd time.Duration, needWork func() bool) bo
 		}
 		now := time.Now()
 		if now.After(deadline) {
+			expired.Add(1)
 			return false
 		}
 		if n := r.lg.Len(); n != last {
@@ -986,7 +994,7 @@ func main() {
 	wg.Wait()
 	outW.Flush()
 	f.Close()
-	fmt.Printf("scenarios=%d runs=%d events=%d wakes=%d\n", len(scns), nRuns.Load(), nEv.Load(), nWake.Load())
+	fmt.Printf("scenarios=%d runs=%d events=%d wakes=%d expired=%d\n", len(scns), nRuns.Load(), nEv.Load(), nWake.Load(), expired.Load())
 }
 
 // expandHolding runs the base scenario while holding a slot and releases it before spawning the sweep.
